@@ -1248,6 +1248,10 @@ def rewrite(t, fn):
                     e2.append(x)
             effs.append(tuple(e2))
         n = (k, t[1], rewrite(t[2], fn), effs)
+        if t[2][0] == "param" and n[2] != t[2] and len(effs) == 1 and effs[0][0] == "assign" and len(effs[0]) == 4 and effs[0][1] == "" and not effs[0][3]:
+            # a by-value `mut` parameter that is reassigned once, with the argument put in its place:  { p = v(p) }  at p := a  is  v(a)
+            init = n[2]
+            n = rewrite(effs[0][2], lambda x: init if x == ("sym", "<self>") else None)
     elif k == "guard":
         if t[1] == "if":
             n = (k, "if", t[2], rewrite(t[3], fn))
@@ -2355,7 +2359,9 @@ class Norm:
         if callee in self._stack or len(self._stack) > INLINE_MAX_DEPTH:
             return None
         fn = self.transparent_fn(callee, len(arg_nodes))
-        if fn is None or fn["path"] in self._stack:
+        if fn is None:
+            return self._specialise_recursive(callee, arg_nodes, node)
+        if fn["path"] in self._stack:
             return None
         sub = Norm(fn, program=self.program, keep=self.keep, _stack=self._stack)
         global _NO_TAIL_TRY
@@ -2397,6 +2403,67 @@ class Norm:
             r = _map_strings(r, lambda x: _GENERIC_PARAM.sub(gsub, x) if "/#" in x else x)
             if failed:
                 return None
+        return r
+
+    def _specialise_recursive(self, callee, arg_nodes, node):
+        """f(x, a) { H(x, g(a)) } with a private recursive helper H(x, p) { .. H(e(x), p) .. } that hands `p` on unchanged:
+        f is H specialised to p = g(a), i.e. H's body with p := g(a) and the recursive call H(e, p) read as f(e, a)."""
+        if len(self._stack) != 1 or self.body.get("dk") not in ("Fn", "AssocFn") or self.program is None or self.keep is None:
+            return None
+        root = strip(self.body.get("body") or {})
+        if root.get("k") == "Block" and "b" in root and not root["b"].get("stmts"):
+            root = strip(root["b"].get("expr") or {})
+        if root is not strip(node):
+            return None            # only when the whole of f is this one call
+        if not callee.startswith(LOCAL_CRATES) or cshort(callee) in self.keep:
+            return None
+        fn = self.program.body(callee)
+        if fn is None or "body" not in fn or fn.get("pub") or fn.get("dk") not in ("Fn", "AssocFn") or len(fn.get("params", [])) != len(arg_nodes):
+            return None
+        hname = cshort(fn["path"])
+        sub = Norm(fn, program=self.program, keep=self.keep, _stack=self._stack)
+        global _NO_TAIL_TRY
+        saved, _NO_TAIL_TRY = _NO_TAIL_TRY, True
+        try:
+            t = sub.term(fn["body"])
+        finally:
+            _NO_TAIL_TRY = saved
+        if len(_show(t)) > INLINE_MAX_SIZE:
+            return None
+        recs = [x for x in subterms(t) if x[0] == "call" and (x[1] == hname or x[1].startswith(hname + "<"))]
+        if not recs or any(len(x[2]) != len(arg_nodes) for x in recs):
+            return None
+        n = len(arg_nodes)
+        inv = [j for j in range(n) if all(x[2][j] == ("param", j) for x in recs)]
+        desc = [j for j in range(n) if j not in inv]
+        args = [self._t(a) for a in arg_nodes]
+        if any(args[j][0] != "param" for j in desc) or len({args[j][1] for j in desc}) != len(desc):
+            return None
+        dpar = [args[j] for j in desc]
+        if any(x[0] == "param" and x in dpar for j in inv for x in subterms(args[j])):
+            return None            # the fixed arguments must not depend on what the recursion descends on
+        fname = cshort(self.body["path"])
+        nf = len(self.body.get("params", []))
+        shift = self.call_depth.get(id(node), self._cur_depth)
+
+        def subst(x):
+            if x[0] == "call" and (x[1] == hname or x[1].startswith(hname + "<")) and len(x[2]) == n:
+                fargs = [("param", i) for i in range(nf)]
+                for j in desc:
+                    fargs[args[j][1]] = rewrite(x[2][j], subst)
+                return ("call", fname, fargs)
+            if x[0] == "param":
+                return args[x[1]] if x[1] < len(args) else None
+            if x[0] == "cparam" and shift:
+                return ("cparam", x[1] + shift, x[2])
+            if x[0] == "closure" and shift:
+                return ("closure", x[1] + shift, x[2], x[3])
+            return None
+        r = _unreturn(_reduce_applied(rewrite(t, subst)))
+        if _has_ret(r) or "/#" in _show(r):
+            return None
+        if peel_ty(fn.get("output", "")).startswith(("std::option::Option<", "core::option::Option<")):
+            r = _untry_option(r)
         return r
 
     def _is_mut_local_effect(self, node):
@@ -2774,6 +2841,10 @@ class Norm:
                 return ("call", "Ok", args)
             if e.get("dk", "").startswith("Ctor") and name in ("v1::Err", "Result::Err"):
                 return ("call", "Err", args)
+            if c.startswith(LOCAL_CRATES) and not str(e.get("dk", "")).startswith("Ctor"):
+                # a sequence handed to a function of this repository: collected into a Vec first or passed as the iterator, the callee sees
+                # the same elements in the same order
+                args = [a[2][0] if a[0] == "call" and a[1] == "Iterator::collect" and len(a[2]) == 1 else a for a in args]
             return ("call", name, args)
         if k == "MethodCall":
             name = cshort(e.get("callee", "?::" + e["name"]))
